@@ -218,6 +218,166 @@ class NumFn:
         return 'Definition gen_%s {T : Type} (N : Num T) (%s : T) :=\n  %s.' % (self.name, ' '.join(sig), body)
 
 
+class LoopFn(NumFn):
+    """One accumulating loop over the legs of a polyline (proj_polyligne):
+
+        <v = e>*                         initialisations (numbers; a float literal becomes a named constant, see `consts`)
+        for i in range(len(A) - 1):      A a list parameter
+            <body>                       assignments, A[i] / A[i + 1] on list parameters, `if c: continue`, tuple assignment from a translated
+                                         function, `if c: <assignments>`, the loop index assigned to a variable
+        return (v1, v2, ...)             names only
+
+    becomes a body function on the tuple of the variables that survive an iteration (those initialised before the loop, then those the return
+    reads), a Fixpoint that applies it `length A - 1` times with the index counting up from 0, and the function itself.  A variable that
+    is only assigned inside the loop has an option type (None = still unbound: Python would raise UnboundLocalError on return) and cannot
+    be read inside the loop.  Float literals are parameters of the generated function, in order of appearance; their `repr` is emitted as a
+    list of strings that the proof file compares with the literals the model was written for."""
+
+    def __init__(self, mod, name, shape):
+        NumFn.__init__(self, mod, name, shape)
+        self.consts = []          # repr of the float literals, in order of appearance
+        self.lists = {a for a, k in self.params if k == 'L'}
+        self.opt = []             # names only assigned inside the loop
+        self.ivar = None
+        self.natvars = set()
+
+    def E(self, n, env):
+        if isinstance(n, ast.Constant) and isinstance(n.value, float):
+            self.consts.append(repr(n.value))
+            return 'c_%d' % (len(self.consts) - 1)
+        if isinstance(n, ast.Name) and (n.id in self.opt or n.id in self.lists or n.id == self.ivar or n.id in self.natvars):
+            raise Untranslatable('%s: %s read as a number (line %d)' % (self.name, n.id, n.lineno))
+        if isinstance(n, ast.Subscript) and isinstance(n.value, ast.Name) and n.value.id in self.lists and self.ivar is not None:
+            ix = n.slice
+            if isinstance(ix, ast.Name) and ix.id == self.ivar:
+                return '(List.nth v_i %s (zero N))' % V(n.value.id)
+            if isinstance(ix, ast.BinOp) and isinstance(ix.op, ast.Add) and isinstance(ix.left, ast.Name) and ix.left.id == self.ivar \
+                    and isinstance(ix.right, ast.Constant) and ix.right.value == 1 and not isinstance(ix.right.value, (bool, float)):
+                return '(List.nth (S v_i) %s (zero N))' % V(n.value.id)
+            raise Untranslatable('%s: index of %s (line %d)' % (self.name, n.value.id, n.lineno))
+        if isinstance(n, ast.Call) and not n.keywords and isinstance(n.func, ast.Name) and n.func.id == 'abs' and len(n.args) == 1:
+            return '(abs N %s)' % self.num(n.args[0], env)
+        if isinstance(n, ast.List):
+            return [self.num(e, env) for e in n.elts]
+        return NumFn.E(self, n, env)
+
+    def state(self, env):
+        return '(' + ', '.join(env[v] for v in self.svars) + ')'
+
+    def lblock(self, stmts, env):
+        """Coq term (the state after the iteration) of the rest of a loop body"""
+        if not stmts:
+            return self.state(env)
+        s, rest = stmts[0], stmts[1:]
+        if isinstance(s, ast.Continue):
+            return self.state(env)
+        if isinstance(s, ast.Assign) and len(s.targets) == 1 and isinstance(s.targets[0], ast.Name):
+            t = s.targets[0].id
+            if t in self.lists or t == self.ivar or t in [a for a, _ in self.params]:
+                raise Untranslatable('%s: assignment to %s (line %d)' % (self.name, t, s.lineno))
+            env = dict(env)
+            if isinstance(s.value, ast.Name) and s.value.id == self.ivar:
+                if t not in self.natvars:
+                    raise Untranslatable('%s: the loop index stored in %s (line %d)' % (self.name, t, s.lineno))
+                env[t] = '(Some v_i)' if t in self.opt else 'v_i'
+                return self.lblock(rest, env)
+            if t in self.natvars:
+                raise Untranslatable('%s: %s holds the loop index elsewhere (line %d)' % (self.name, t, s.lineno))
+            v = self.num(s.value, env)
+            if t in self.opt:
+                env[t] = '(Some %s)' % v
+                return self.lblock(rest, env)
+            env[t] = V(t)
+            return 'let %s := %s in\n    %s' % (V(t), v, self.lblock(rest, env))
+        if isinstance(s, ast.Assign) and len(s.targets) == 1 and isinstance(s.targets[0], ast.Tuple) and all(isinstance(e, ast.Name) for e in s.targets[0].elts):
+            names = [e.id for e in s.targets[0].elts]
+            if any(nm in self.svars or nm in self.lists or nm == self.ivar for nm in names):
+                raise Untranslatable('%s: tuple assignment to a loop-carried name (line %d)' % (self.name, s.lineno))
+            v = self.E(s.value, env)
+            if not isinstance(v, tuple) or v[2] != len(names):
+                raise Untranslatable('%s: tuple assignment (line %d)' % (self.name, s.lineno))
+            env = dict(env)
+            for nm in names:
+                env[nm] = V(nm)
+            return "let '(%s) := %s in\n    %s" % (', '.join(V(nm) for nm in names), v[1], self.lblock(rest, env))
+        if isinstance(s, ast.If) and not s.orelse:
+            c = self.boolean(s.test, env)
+            return '(if %s then\n    %s\n    else\n    %s)' % (c, self.lblock(list(s.body) + ([] if isinstance(s.body[-1], ast.Continue) else rest), env), self.lblock(rest, env))
+        raise Untranslatable('%s: statement %s in the loop (line %d)' % (self.name, type(s).__name__, s.lineno))
+
+    def text(self):
+        body = [s for s in self.node.body if not (isinstance(s, ast.Expr) and isinstance(s.value, ast.Constant) and isinstance(s.value.value, str))]
+        loops = [k for k, s in enumerate(body) if isinstance(s, ast.For)]
+        if len(loops) != 1 or loops[0] != len(body) - 2 or not isinstance(body[-1], ast.Return):
+            raise Untranslatable('%s: not <initialisations> <one loop> <return>' % self.name)
+        loop, ret = body[-2], body[-1]
+        env = {}; sig = []
+        for nm, k in self.params:
+            if k == 'L':
+                sig.append('(%s : list T)' % V(nm))
+            elif k == 1:
+                env[nm] = V(nm); sig.append('(%s : T)' % V(nm))
+            else:
+                raise Untranslatable('%s: parameter shape' % self.name)
+        inits = []
+        for s in body[:-2]:
+            if not (isinstance(s, ast.Assign) and len(s.targets) == 1 and isinstance(s.targets[0], ast.Name)) or s.targets[0].id in env or s.targets[0].id in self.lists:
+                raise Untranslatable('%s: initialisation (line %d)' % (self.name, s.lineno))
+            inits.append((s.targets[0].id, self.num(s.value, env)))
+            env[s.targets[0].id] = V(s.targets[0].id)
+        # the loop header: for i in range(len(A) - 1), no else
+        it = loop.iter
+        ok = isinstance(loop.target, ast.Name) and not loop.orelse and isinstance(it, ast.Call) and isinstance(it.func, ast.Name) and it.func.id == 'range' \
+            and len(it.args) == 1 and not it.keywords and isinstance(it.args[0], ast.BinOp) and isinstance(it.args[0].op, ast.Sub) \
+            and isinstance(it.args[0].right, ast.Constant) and it.args[0].right.value == 1 and not isinstance(it.args[0].right.value, (bool, float)) \
+            and isinstance(it.args[0].left, ast.Call) and isinstance(it.args[0].left.func, ast.Name) and it.args[0].left.func.id == 'len' \
+            and len(it.args[0].left.args) == 1 and isinstance(it.args[0].left.args[0], ast.Name) and it.args[0].left.args[0].id in self.lists
+        if not ok:
+            raise Untranslatable('%s: loop header (line %d)' % (self.name, loop.lineno))
+        over = it.args[0].left.args[0].id
+        self.ivar = loop.target.id
+        if self.ivar in env:
+            raise Untranslatable('%s: the loop index shadows %s' % (self.name, self.ivar))
+        # what the return reads
+        if not (isinstance(ret.value, ast.Tuple) and all(isinstance(e, ast.Name) for e in ret.value.elts)):
+            raise Untranslatable('%s: the return is not a tuple of names' % self.name)
+        rnames = [e.id for e in ret.value.elts]
+        initnames = [nm for nm, _ in inits]
+        self.opt = [nm for nm in rnames if nm not in initnames]
+        if len(set(rnames)) != len(rnames) or any(nm in [a for a, _ in self.params] or nm == self.ivar for nm in rnames):
+            raise Untranslatable('%s: returned names' % self.name)
+        self.svars = initnames + self.opt
+        # a name of the return that is assigned the loop index somewhere in the loop holds a nat
+        for n in ast.walk(loop):
+            if isinstance(n, ast.Assign) and len(n.targets) == 1 and isinstance(n.targets[0], ast.Name) and isinstance(n.value, ast.Name) and n.value.id == self.ivar:
+                self.natvars.add(n.targets[0].id)
+        if any(nm in initnames for nm in self.natvars):
+            raise Untranslatable('%s: an initialised name holds the loop index' % self.name)
+        lenv = dict(env)
+        for nm in self.opt:
+            lenv[nm] = V(nm)
+        bodyt = self.lblock(list(loop.body), lenv)
+        consts = ' '.join('c_%d' % k for k in range(len(self.consts)))
+        csig = ('(%s : T) ' % consts) if self.consts else ''
+        sigs = ' '.join(sig)
+        args = ' '.join(V(nm) for nm, _ in self.params)
+        pat = ', '.join(V(nm) for nm in self.svars)
+        def ty(nm):
+            return ('option nat' if nm in self.natvars else 'option T') if nm in self.opt else 'T'
+        sty = ' * '.join(ty(nm) for nm in self.svars)
+        out = []
+        out.append('Definition gen_%s_consts : list string := [%s]%%string.' % (self.name, '; '.join('"%s"' % c for c in self.consts)))
+        out.append("Definition gen_%s_body {T : Type} (N : Num T) %s%s (v_i : nat) (st : %s) : %s :=\n  let '(%s) := st in\n    %s."
+                   % (self.name, csig, sigs, sty, sty, pat, bodyt))
+        out.append('Fixpoint gen_%s_loop {T : Type} (N : Num T) %s%s (k : nat) (v_i : nat) (st : %s) : %s :=\n  match k with\n  | O => st\n  | S k => gen_%s_loop N %s %s k (S v_i) (gen_%s_body N %s %s v_i st)\n  end.'
+                   % (self.name, csig, sigs, sty, sty, self.name, consts, args, self.name, consts, args))
+        init = '(' + ', '.join([t for _, t in inits] + ['None'] * len(self.opt)) + ')'
+        out.append("Definition gen_%s {T : Type} (N : Num T) %s%s :=\n  let '(%s) := gen_%s_loop N %s %s (List.length %s - 1) 0 %s in\n  (%s)."
+                   % (self.name, csig, sigs, pat, self.name, consts, args, V(over), init, ', '.join(V(nm) for nm in rnames)))
+        self.arity = len(rnames)
+        return '\n'.join(out)
+
+
 class NumModule:
     def __init__(self, source):
         self.tree = ast.parse(source)
@@ -225,15 +385,15 @@ class NumModule:
 
     def translate(self, specs):
         out = ['(* GENERATED on every run by harness/py2coq_num.py from tracklib/util/geometry.py - do not edit *)',
-               'From Coq Require Import Bool.', 'From TL Require Import Model.Num.', '']
+               'From Coq Require Import Bool List String.', 'Import ListNotations.', 'From TL Require Import Model.Num.', '']
         for name, shape in specs:
-            f = NumFn(self, name, shape)
+            f = (LoopFn if 'L' in shape else NumFn)(self, name, shape)
             out.append(f.text())
             self.done[name] = f
         return '\n'.join(out) + '\n'
 
 
-SPECS = [('cartesienne', [4]), ('projection_droite', [3, 1, 1]), ('proj_segment', [4, 1, 1]), ('distance_to_segment', [1] * 6)]
+SPECS = [('cartesienne', [4]), ('projection_droite', [3, 1, 1]), ('proj_segment', [4, 1, 1]), ('distance_to_segment', [1] * 6), ('proj_polyligne', ['L', 'L', 1, 1])]
 
 
 def translate_geometry(path):
